@@ -74,6 +74,8 @@ def _main(a, prop, seed, t0):
     mod = importlib.import_module('contracts.' + prop.lower())
     tier = a.tier
     timeout = 60 if tier == 'quick' else 300
+    if getattr(mod, 'BOUNDED_ONLY', False):
+        return _bounded_only(a, prop, seed, t0, mod, tier)
     obls, info = R.generate(mod, a.only)
     gen_s = time.time() - t0
     known = load_known(prop)
@@ -225,6 +227,35 @@ def _main(a, prop, seed, t0):
     if undecided:
         for n, why in undecided: print(f"UNDECIDED property={prop} reason={why} [{n}]")
         return 2
+    return 0
+
+def _bounded_only(a, prop, seed, t0, mod, tier):
+    """properties (or the part of them) for which no contract is discharged yet: the runtime form of the contracts on generated inputs,
+    labelled bounded (level 'exploration'); never reported as proved"""
+    known = load_known(prop)
+    os.makedirs(os.path.join(ROOT, 'replays', prop), exist_ok=True)
+    outp = os.path.join(ROOT, 'replays', prop, '.rt_result.json')
+    rt = run_rt(prop, tier, seed, None, outp)
+    try: os.unlink(outp)
+    except OSError: pass
+    viol = []; known_lines = []
+    for v in rt['violations']:
+        if v['signature'] in known: known_lines.append((known.key(v['signature']), known[v['signature']]))
+        else: viol.append(v)
+    cov = dict(rt['coverage'])
+    cov['explanation'] = 'bounded stand-in: runtime contracts evaluated on the real code over generated inputs; no obligation of this property is discharged deductively (see MANIFEST level_note)'
+    ev = dict(property_id=prop, tier=tier, seed=seed, level='exploration', coverage=cov,
+              assumptions=list(getattr(mod, 'TRUSTED', [])) + ['bounded: only the generated inputs are covered'], wall_s=round(time.time() - t0, 2), violations=len(viol))
+    os.makedirs(os.path.join(ROOT, 'evidence'), exist_ok=True)
+    json.dump(ev, open(os.path.join(ROOT, 'evidence', f'{prop}.json'), 'w'), indent=1, default=str)
+    print(f"{prop} [{tier}] BOUNDED ONLY: runtime evaluations {cov['evaluations']} ({cov['distinct_nontrivial']} distinct non-trivial), {len(rt['violations'])} contract violations; wall {time.time() - t0:.1f}s")
+    seen = set()
+    for k, what in known_lines:
+        if k in seen: continue
+        seen.add(k); print(f"KNOWN-FINDING: property={prop} {k} :: {what}")
+    if viol:
+        for v in viol: print(f"VIOLATION property={prop} replay={v['replay']}")
+        return 1
     return 0
 
 if __name__ == '__main__':
